@@ -32,6 +32,7 @@ type World struct {
 
 	flow *flowGraph // lazily built
 	writerSet map[*ssa.Function]bool
+	effects   map[*ssa.Function]map[string]bool
 	thr  *threads   // lazily built
 }
 
